@@ -189,26 +189,24 @@ class Handler(mode_servers.ProxyConnectionHandler):
 
 
 def _observe_slots(h, w):
-    """log when a connection task has to queue for its address' max_conns semaphore (observation only: the
-    semaphores are the handler's own, created by its own default factory)"""
-    import collections
-    inner = h.max_conns
+    """log when a connection task has to queue for its address' max_conns semaphore.  Observation only: the handler
+    keeps its own `max_conns` mapping and its own default factory creates every semaphore; the factory is merely
+    wrapped so that the semaphore's acquire() reports a wait."""
+    orig_factory = h.max_conns.default_factory
 
-    class Slots(collections.defaultdict):
-        def __missing__(self, key):
-            sem = inner[key]
-            orig = sem.acquire
+    def factory():
+        sem = orig_factory()
+        orig = sem.acquire
 
-            async def acquire():
-                if sem.locked():
-                    w.log("slot_wait", w.task_server.get(asyncio.current_task()))
-                return await orig()
+        async def acquire():
+            if sem.locked():
+                w.log("slot_wait", w.task_server.get(asyncio.current_task()))
+            return await orig()
 
-            sem.acquire = acquire
-            self[key] = sem
-            return sem
+        sem.acquire = acquire
+        return sem
 
-    h.max_conns = Slots()
+    h.max_conns.default_factory = factory
 
 
 def run_plan(plan, fault=None, max_iter=60_000):
